@@ -983,6 +983,45 @@ def run(ctx: Any, prog: Program) -> None:
                       f'{"as the blank id" if WANT[kname] == "blank" else ("by its id" if WANT[kname] == "id" else "inline")}' + (' (a NULL written by id comes back as a stub with the all-zero id, not as NULL)' if kname == 'NULL' else ''),
                       func='Element._export_kv2', text=f'{pos}: {kname}')
 
+    # ---- X13: terminated strings are decoded whole ------------------------------------------------------------------------------------------
+    # a multi-byte UTF-8 character may sit anywhere in a string: bytes are collected up to the terminator and decoded once.  Decoding the
+    # pieces of a block-wise read one by one cuts a character that straddles a block boundary in half (UnicodeDecodeError, or a wrong character).
+    ctx.rule('C14.X13', 'binformat.read_nullstr decodes the complete byte string, not the blocks it was read in', floor=1)
+    bfm = prog.module('binformat')
+    rn = bfm.func('read_nullstr')
+    decs = [c for c in ast.walk(rn) if isinstance(c, ast.Call) and isinstance(c.func, ast.Attribute) and c.func.attr == 'decode']
+    ctx.shape('C14.X13', bool(decs), bfm, rn, 'read_nullstr decodes what it read', func='read_nullstr', text='decode site')
+    for dc in decs:
+        loop_ = next((a for a in _ancestors(bfm, dc, rn) if isinstance(a, (ast.While, ast.For))), None)
+        partial = False
+        why_ = ''
+        if loop_ is not None:
+            # what is decoded: a (slice of a) local read with more than one byte per iteration, instead of the joined collection
+            base = dc.func.value
+            while isinstance(base, ast.Subscript):
+                base = base.value
+            if isinstance(base, ast.Name):
+                reads_ = [a.value for a in ast.walk(loop_) if isinstance(a, ast.Assign) and any(isinstance(t, ast.Name) and t.id == base.id for t in a.targets) and isinstance(a.value, ast.Call)
+                          and isinstance(a.value.func, ast.Attribute) and a.value.func.attr == 'read']
+                for r_ in reads_:
+                    one = r_.args and isinstance(r_.args[0], ast.Constant) and r_.args[0].value == 1
+                    if not one:
+                        partial, why_ = True, U(r_)
+        ctx.check('C14.X13', not partial, bfm, dc, f'read_nullstr decodes `{U(dc.func.value)[:40]}`, a piece of a block read with `{why_}`, on its own: a multi-byte character that straddles the block boundary is cut in two '
+                  '(any string longer than a block with a non-ASCII character at the boundary fails to parse)', func='read_nullstr', text='decoded after joining')
+
+    # ---- X14: the KV2 writer names every element ------------------------------------------------------------------------------------------
+    # the reader gives an inline child the name of the attribute that holds it until it meets a `"name"` line, so a block without that line
+    # does not come back unnamed: the line is written for every element, whatever the name is.
+    ctx.rule('C14.X14', 'KV2 writer: the "name" line of an element block is written unconditionally', floor=1)
+    ek14 = dmx.func('Element._export_kv2')
+    name_writes = [c for c in ast.walk(ek14) if isinstance(c, ast.Call) and isinstance(c.func, ast.Attribute) and c.func.attr == 'write' and any(isinstance(x, ast.Constant) and isinstance(x.value, bytes) and b'"name" "string"' in x.value for x in ast.walk(c))]
+    ctx.shape('C14.X14', len(name_writes) == 1, dmx, ek14, f'{len(name_writes)} writes of the name line in _export_kv2', func='Element._export_kv2', text='name line write')
+    for nw in name_writes:
+        guards14 = [a for a in _ancestors(dmx, nw, ek14) if isinstance(a, (ast.If, ast.IfExp, ast.For, ast.While))]
+        ctx.check('C14.X14', not guards14, dmx, nw, f'the name line is written only under `{U(guards14[0].test)[:50] if guards14 and hasattr(guards14[0], "test") else "a loop"}`: an unnamed element written inline comes back named '
+                  'after the attribute that holds it, because that is what the reader starts an inline child with', func='Element._export_kv2', text='name line unconditional')
+
     # ---- X12: a reference read from KeyValues2 holds a stub until it is resolved ---------------------------------------------------------------
     # the fix-up pass of parse_kv2 replaces a reference only when the id is defined in the file; a dangling id has to stay a stub *with that
     # id*.  So wherever the element parser queues a fix-up (`fixups.append((.., uuid, ..))`) the same block also stores
@@ -1115,6 +1154,7 @@ def run(ctx: Any, prog: Program) -> None:
 
 
 MUTANTS: List[Dict[str, Any]] = [
+    {'id': 'kv2_name_line_only_when_named', 'file': 'dmx.py', 'find': "        file.write(b'%b\"name\" \"string\" \"%b\"\\r\\n' % (indent_child, escape_text(self.name).encode(encoding)))", 'replace': "        if self.name:\n            file.write(b'%b\"name\" \"string\" \"%b\"\\r\\n' % (indent_child, escape_text(self.name).encode(encoding)))", 'expect': 'C14.X14'},
     {'id': 'kv2_scalar_reference_without_stub', 'file': 'dmx.py', 'find': "                    attr.val_elem = stubs.setdefault(uuid, StubElement.stub(uuid))\n", 'replace': "", 'expect': 'C14.X12'},
     {'id': 'time_refused_at_v3', 'file': 'dmx.py', 'find': "                if attr.type is ValueType.TIME and version < 3:", 'replace': "                if attr.type is ValueType.TIME and version <= 3:", 'expect': 'C14.X2'},
     {'id': 'ok_time_gate_le_2', 'file': 'dmx.py', 'find': "                if attr.type is ValueType.TIME and version < 3:", 'replace': "                if attr.type is ValueType.TIME and version <= 2:", 'expect': None},
